@@ -14,7 +14,9 @@
  *   the last one ending at the last byte of the image.
  * These are the invariants g_typelib_validate / the compiler establish and the harness assumes:
  * offsets inside the image, strings NUL-terminated inside it, section table terminated by
- * GI_SECTION_END, hash section 4-aligned with table[h(name_i)] = i, entry names distinct.
+ * GI_SECTION_END, hash section 4-aligned with table[h(name_i)] = i, local entry names distinct.
+ * In mode 0 the directory continues with 0..XMAX non-local entries (n_entries = n_local_entries +
+ * that many) with arbitrary names: a name found only there is not in the namespace.
  *
  * cmph_search_packed is an uninterpreted function under the perfect-hash contract only:
  * the n entry names map to pairwise distinct values < n, any other key to an arbitrary u32.
@@ -34,8 +36,9 @@
 typedef unsigned int cmph_uint32;
 cmph_uint32 cmph_search_packed (void *packed_mphf, const char *key, cmph_uint32 keylen);
 
-#define IMG 320
+#define IMG 352
 #define NMAX 3
+#define XMAX 2                     /* non-local directory entries after the local ones */
 #define SMAX 5                     /* longest string the buffers can take */
 static guchar h_img[IMG];
 static GITypelib h_typelib;
@@ -110,24 +113,24 @@ static char *h_make_probe (void)
 
 /* common part: header, directory of n entries, blobs; returns the first free offset.
  * string lengths must be known before (strings sit at the very end of the image). */
-static int h_layout (int n, int *dir_out)
+static int h_layout (int n, int nx, int *dir_out)
 {
   Header *hd = (Header *) h_img;
-  int dir = sizeof (Header) + 4 * __llsym_pick ("dirpad", -1, 2), i;
+  int dir = sizeof (Header) + 4 * __llsym_pick ("dirpad", -1, 2), i, all = n + nx;
   h_typelib.data = h_img;
   h_typelib.len = IMG;
   hd->directory = dir;
   hd->entry_blob_size = sizeof (DirEntry);
-  hd->n_entries = n;
-  hd->n_local_entries = n;
-  for (i = 0; i < n; i++)
+  hd->n_entries = all;                   /* nx entries for symbols of other namespaces follow */
+  hd->n_local_entries = n;               /* the n local ones */
+  for (i = 0; i < all; i++)
     {
       DirEntry *e = (DirEntry *) &h_img[dir + i * sizeof (DirEntry)];
-      e->local = 1;
-      e->offset = dir + n * sizeof (DirEntry) + i * 24;
+      e->local = i < n;
+      e->offset = i < n ? dir + all * sizeof (DirEntry) + i * 24 : 0;   /* non-local: namespace name */
     }
   *dir_out = dir;
-  return dir + n * (int) sizeof (DirEntry) + n * 24;
+  return dir + all * (int) sizeof (DirEntry) + n * 24;
 }
 
 static DirEntry *h_entry (int dir, int i) { return (DirEntry *) &h_img[dir + i * sizeof (DirEntry)]; }
@@ -137,7 +140,8 @@ static DirEntry *h_entry (int dir, int i) { return (DirEntry *) &h_img[dir + i *
 static void mode_by_name (void)
 {
   int n = 1 + __llsym_pick ("n", -1, NMAX), secvar = __llsym_pick ("secvar", -1, 4);
-  int i, j, dir, free_, total = 0, pos, plen;
+  int nx = __llsym_pick ("n_nonlocal", -1, XMAX + 1);      /* directory entries of other namespaces */
+  int i, j, dir, free_, total = 0, pos, plen, xlen[XMAX];
   char *probe;
   DirEntry *got, *want = NULL;
   Header *hd = (Header *) h_img;
@@ -148,8 +152,22 @@ static void mode_by_name (void)
       h_len[i] = __llsym_pick ("len", i, h_maxstr + 1);
       total += h_len[i] + 1;
     }
-  free_ = h_layout (n, &dir);
+  for (i = 0; i < nx; i++)
+    {
+      xlen[i] = __llsym_pick ("xlen", i, h_maxstr + 1);
+      total += xlen[i] + 1;
+    }
+  free_ = h_layout (n, nx, &dir);
   pos = IMG - total;                       /* the strings end with the image */
+  /* names of the non-local entries: any strings, also ones equal to a local name; the hash
+   * is built over the local names only, to it they are keys like any other */
+  for (i = 0; i < nx; i++)
+    {
+      h_bytes ("x", i * 8, (char *) &h_img[pos], xlen[i]);
+      h_entry (dir, n + i)->name = pos;
+      h_entry (dir, n + i)->blob_type = 0;
+      pos += xlen[i] + 1;
+    }
   for (i = 0; i < n; i++)
     {
       h_off[i] = pos;
@@ -184,6 +202,9 @@ static void mode_by_name (void)
               used |= 1 << h_perm[i];
               table[h_perm[i]] = (guint16) i;                 /* what the builder packs */
             }
+          /* whatever follows the n-entry table in the image: arbitrary */
+          table[n] = __llsym_nondet_u16 ("after_table", 0);
+          table[n + 1] = __llsym_nondet_u16 ("after_table", 1);
           /* any u32 for keys outside the set: either one of the n in-range values, or some
            * value >= n (kept symbolic) */
           if (__llsym_pick ("h_other_in_range", -1, 2))
@@ -221,7 +242,7 @@ static void mode_by_blob_string (int by_domain)
       h_len[i] = has[i] ? __llsym_pick ("len", i, h_maxstr + 1) : 0;
       total += has[i] ? h_len[i] + 1 : 0;
     }
-  h_layout (n, &dir);
+  h_layout (n, 0, &dir);
   pos = IMG - total;
   for (i = 0; i < n; i++)
     {
